@@ -1561,6 +1561,13 @@ class Walker:
         if tr == 'core::ops::try_trait::FromResidual' and name == 'from_residual' and len(args) == 1 and args[0][0] == 'variant' and args[0][3] in ('Err', 'None'):
             v = args[0]
             return ('variant', v[1], v[2], v[3], tuple(('conv', 'residual', x) for x in v[4]), v[5])
+        if tr == 'core::ops::try_trait::FromResidual' and name == 'from_residual' and len(args) == 1:
+            # a residual is always the failure case (Option<Infallible> is None, Result<Infallible, E> is Err(e)): so is the result
+            st = c.get('self_ty') or ''
+            if st.startswith('core::option::Option<'):
+                return NONE_T
+            if st.startswith('core::result::Result<'):
+                return ('variant', 'core::result::Result', 1, 'Err', (('conv', 'residual', simp(('field', simp(('downcast', args[0], 1, 'Err')), 0, '0'))),), 1)
         if tr == 'core::cmp::Ord' and name == 'cmp' and len(args) == 2:
             return ('cmp', strip_ref(args[0]), strip_ref(args[1]))
         if name == 'reverse' and len(args) == 1 and args[0][0] == 'cmp' and 'Ordering' in ckey:
